@@ -17,7 +17,7 @@ const hostType = "mosn.io/mosn/pkg/types.Host"
 func init() {
 	register(&PropSpec{
 		ID:       "C05",
-		Patterns: []string{"./pkg/upstream/cluster"},
+		Patterns: []string{"./pkg/upstream/cluster", "./pkg/types"},
 		Explanation: "Static guarded-return analysis over the SSA of every types.LoadBalancer implementation: " +
 			"(R1) every types.Host value returned by a ChooseHost method, or by any helper whose result can flow into such a return, is nil or was observed healthy (h.Health() true edge dominates the return / phi edge) on that very path — decided as a greatest fixed point over phi cycles and interprocedural summaries; " +
 			"(R2) every non-nil returned host originates from HostSet.Get on the balancer's own host set or from the EDF scheduler which is filled only from that set; " +
